@@ -303,3 +303,9 @@ PPM = [(WPM, "pparM_model"), (WPM, "pparM_final")]
 for pid, items in (("C07", PPM),):
     if pid in PLAN:
         add_imports(pid, WHI + ["ModelCipher", "ModelCtr", "ProofsCtr", "WholeProc", "WholeCtr", "WholeCtrModel", "WholePar", "WholeParM"]); PLAN[pid] += items
+
+# key setters of the parallel-ECB objects (WholeParKey.v)
+WPK = "WholeParKey.v"
+for pid, items in (("C10", [(WPK, "w_par_lift_homU")]), ("C03", [(WPK, "w_par_swap_homU")])):
+    if pid in PLAN:
+        add_imports(pid, WHI + ["ModelCipher", "WholeMantis", "WholeMantisKey", "WholeParKey"]); PLAN[pid] += items
